@@ -257,7 +257,41 @@ class Corr:
         self.distribution[key] = self.distribution.get(key, 0) + k
 
 
-def lockstep(corr: Corr, cases, canon_model=None):
+_BITS = re.compile(r"#(\d+)")
+_SPLIT = re.compile(r"([ ,:;=()\[\]|])")
+
+
+def canon_bits(line: str) -> str:
+    """`#<64-bit pattern>` (model output) -> python float repr"""
+    return _BITS.sub(lambda m: repr(b2f(int(m.group(1)))), line)
+
+
+def float_cmp(a: str, b: str, rtol=1e-9, atol=1e-12):
+    """token-wise comparison; tokens that are floats on both sides are compared with tolerance.
+    Returns 'eq', 'drift' (only float tokens differ, within tolerance) or 'ne'."""
+    if a == b:
+        return "eq"
+    ta, tb = _SPLIT.split(a), _SPLIT.split(b)
+    if len(ta) != len(tb):
+        return "ne"
+    drift = False
+    for x, y in zip(ta, tb):
+        if x == y:
+            continue
+        try:
+            fx, fy = float(x), float(y)
+        except ValueError:
+            return "ne"
+        if fx == fy or (fx != fx and fy != fy):
+            continue
+        if abs(fx - fy) <= atol + rtol * max(abs(fx), abs(fy)):
+            drift = True
+            continue
+        return "ne"
+    return "drift" if drift else "eq"
+
+
+def lockstep(corr: Corr, cases, canon_model=None, cmp=None):
     """cases: list of dicts {'lines': [...], 'impl': [...], 'meta': …}.  Runs all lines of
     all cases through the driver (one process) and diffs line by line."""
     all_lines = []
@@ -279,6 +313,12 @@ def lockstep(corr: Corr, cases, canon_model=None):
         corr.ops += n
         corr.distinct.add(hashlib.sha1("\n".join(c["lines"]).encode()).hexdigest())
         for k, (a, b) in enumerate(zip(c["impl"], mo)):
+            if cmp is not None:
+                r = cmp(a, b)
+                if r == "drift":
+                    corr.count("float_drift_within_tolerance")
+                if r != "ne":
+                    continue
             if a != b:
                 if len(corr.disagreements) < 50:
                     corr.disagreements.append(
